@@ -257,9 +257,12 @@ class SplitSock(env.FakeSocket):
         it = items_of(data)
         me = threading.current_thread().sched_name
         h = len(it) // 2
-        w.log.append(('write-part', self.id, it[:h], me))
+        lk = getattr(w, 'session_lock', None)
+        acq = [x for x in (lk.log if lk is not None else []) if x[0] == me and x[1] == 'acquire']
+        snap = acq[-1][2] if (acq and lk.owner == me) else {'lock': 'not held'}
+        w.log.append(('write-part', self.id, it[:h], me, snap))
         w.sched.point(me, 'sendall-mid')
-        w.log.append(('write-part', self.id, it[h:], me))
+        w.log.append(('write-part', self.id, it[h:], me, snap))
 
 
 def make_ws(c, w, sched, compress_cfg=None):
@@ -273,6 +276,7 @@ def make_ws(c, w, sched, compress_cfg=None):
     s._sock = sock
     s._ready = True
     s._lock = SchedLock(sched)
+    w.session_lock = s._lock
     s._next_ping = 0.0
     s._last_pong = 0.0
     if compress_cfg:
@@ -298,7 +302,9 @@ def run_sched(c, P):
     sched = Sched(c, pb)
     w.sched = sched
     ws, sess, sock = make_ws(c, w, sched, P.get('compress'))
+    in_close = {}
     sched.snapshot = lambda: dict(closing=ws.state.closing, closed=ws.state.closed,
+                                  close_in_progress=any(in_close.values()),
                                   close_on_wire=any(e[0] == 'write-part' and e[2] and isinstance(e[2][0], int) and e[2][0] & 15 == 8
                                                     for e in w.log))
     results = {}
@@ -328,13 +334,18 @@ def run_sched(c, P):
                     pay = [c.byte('%s_p%d' % (name, i))]
                     ws.send_ping(mk_bytes(pay))
                     sent[name].append((9, pay))
-                elif op == 'close':
-                    ws.close(1000, b'bye')
-                elif op == 'close2':
-                    ws.close(1001, b'again')
-                elif op == 'server_close':
-                    # what the event loop does when the server's Close arrives
-                    list(ws._on_close(Close(1000, 'srv')))
+                elif op in ('close', 'close2', 'server_close'):
+                    in_close[name] = True
+                    try:
+                        if op == 'close':
+                            ws.close(1000, b'bye')
+                        elif op == 'close2':
+                            ws.close(1001, b'again')
+                        else:
+                            # what the event loop does when the server's Close arrives
+                            list(ws._on_close(Close(1000, 'srv')))
+                    finally:
+                        in_close[name] = False
                 elif op == 'pong':
                     class Ev(object):
                         data = b'pp'
@@ -430,26 +441,19 @@ def run_sched(c, P):
         cls.add('frames:%d' % len(frames))
     if 'C12' in tags:
         closes = [i for i, o in enumerate(ops_wire) if o == 8]
-        lock_log = sess._lock.log
-
-        def acquire_snapshot_of(thread_name, nth_last=True):
-            acq = [x for x in lock_log if x[0] == thread_name and x[1] == 'acquire']
-            return acq[-1][2] if acq else None
         if len(closes) > 1:
-            # which thread wrote the second Close, and what did it see when it took the write lock?
-            who = _writer_of_frame(parts, frames, closes[1])
-            snap = acquire_snapshot_of(who)
+            # which thread wrote the second Close, and what did it see when it took the write lock for that write?
+            who, snap = _writer_of_frame(parts, frames, closes[1])
             c.fail('C12: %d Close frames on the wire (second by %s; when it took the write lock: %s)' % (len(closes), who, snap),
-                   sig='C12: two Close frames; second writer took the lock with closing=%s close_on_wire=%s'
-                       % (snap and snap['closing'], snap and snap['close_on_wire']))
+                   sig='C12: two Close frames; second writer took the lock with closing=%s close_on_wire=%s close_in_progress=%s'
+                       % (snap and snap.get('closing'), snap and snap.get('close_on_wire'), snap and snap.get('close_in_progress')))
         if closes:
             for j in range(closes[0] + 1, len(frames)):
                 if ops_wire[j] in (0, 1, 2):
-                    who = _writer_of_frame(parts, frames, j)
-                    snap = acquire_snapshot_of(who)
+                    who, snap = _writer_of_frame(parts, frames, j)
                     c.fail('C12: data frame written after the Close frame (by %s; when it took the write lock: %s)' % (who, snap),
-                           sig='C12: data after Close; sender took the lock with closing=%s close_on_wire=%s'
-                               % (snap and snap['closing'], snap and snap['close_on_wire']))
+                           sig='C12: data after Close; sender took the lock with closing=%s close_on_wire=%s close_in_progress=%s'
+                               % (snap and snap.get('closing'), snap and snap.get('close_on_wire'), snap and snap.get('close_in_progress')))
         for n, res in results.items():
             for op, outcome, wrote in res:
                 if outcome.startswith('exception'):
@@ -470,6 +474,6 @@ def _writer_of_frame(parts, frames, idx):
     pos = 0
     for e in parts:
         if pos <= start < pos + len(e[2]) or (len(e[2]) == 0 and pos == start):
-            return e[3]
+            return e[3], e[4]
         pos += len(e[2])
-    return None
+    return None, None
